@@ -394,7 +394,8 @@ Record IS (g : G) (a : aux) : Prop := {
   s_noroot : forall n d, apub a n = true -> internal g n -> child g n d <> root;
   s_closed : forall n d, apub a n = true -> internal g n -> apub a (child g n d) = true;
   s_rootpub : apub a root = true;
-  s_views : forall t, lv_ok g (apub a) t (view a t)
+  s_views : forall t, lv_ok g (apub a) t (view a t);
+  s_null : flags g null = 0
 }.
 Definition Inv (g : G) (a : aux) (tr : list (nat * ev)) : Prop := IS g a.
 
@@ -466,7 +467,7 @@ Lemma IS_sb g g' a t n lv' :
   IS g a -> same_but g g' n -> unpub (apub a) n -> (forall x, n = Some x -> (4 <= x)%nat /\ owner_of x = t) ->
   lv_ok g' (apub a) t lv' -> IS g' (mk_a a t (apub a) lv').
 Proof.
-  intros Hs Hb Hu Ho Hv. pose proof Hs as [h1 h2 h3 h4 h5 h6 h7].
+  intros Hs Hb Hu Ho Hv. pose proof Hs as [h1 h2 h3 h4 h5 h6 h7 h8].
   assert (Nr : Some root <> n) by (eapply unpub_ne; eauto).
   assert (Hir : internal g root) by (unfold internal; rewrite h2; reflexivity).
   assert (N1 : Some (lft g root) <> n) by (eapply unpub_ne; eauto; apply (h5 root false h6 Hir)).
@@ -479,6 +480,8 @@ Proof.
   - exact h6.
   - intros u. destruct (Nat.eq_dec u t) as [->|Nu]; [rewrite view_mk_same; exact Hv|].
     rewrite view_mk_other by exact Nu. eapply lv_ok_sb; eauto.
+  - assert (N0 : Some null <> n) by (intros E; destruct (Ho null (eq_sym E)) as [X _]; unfold null in X; lia).
+    destruct (Hb null N0) as (E & _). now rewrite E.
 Qed.
 
 Definition treelike (f : G -> G * V * list ev) : Prop := forall g, same_but g (fst (fst (f g))) None.
@@ -511,7 +514,8 @@ Lemma S_nx {R} t f (k : V -> prog R) lv : treelike f -> (forall v, SAFE t (k v) 
 Proof.
   intros Hf H. apply S_keep; [exact Hf|]. intros g a Hs Hv. exists lv. split; [rewrite <- Hv; apply (s_views _ _ Hs)|apply H].
 Qed.
-Ltac tl := intros g0 x0 _; cbn; auto.
+Ltac tl := intros g0 x0 _; try (unfold a_cas_upd; destruct (u_eqb _ _));
+  cbn [fst snd flags ikey lft rgt a_begin a_ld_flags a_st_emp a_faa_emp a_ld_child a_ld_upd a_faa_cnt a_fas_cnt a_guard_st a_guard_ld a_sync a_ret_ld a_ret_st]; auto.
 Ltac nx := apply S_nx; [tl|intros ?].
 
 (** ** facts of a view *)
@@ -528,6 +532,12 @@ Proof. repeat split; cbn; auto using incl_refl, incl_tl. Qed.
 Lemma vle_addfl n f key lv : vle lv (addfl n f key lv).
 Proof. repeat split; cbn; auto using incl_refl, incl_tl. Qed.
 Definition knownp (lv : lview) (n : ptr) : Prop := n = root \/ exists k, In (k, n) (vpa lv).
+Definition kpath (lv : lview) (k : Z) (n : ptr) : Prop := n = root \/ In (k, n) (vpa lv).
+Lemma kpath_mono lv lv' k n : vle lv lv' -> kpath lv k n -> kpath lv' k n.
+Proof. intros (H & _) [->|Hk]; [now left|right; auto]. Qed.
+Lemma kpath_knownp lv k n : kpath lv k n -> knownp lv n.
+Proof. intros [->|H]; [now left|right; eauto]. Qed.
+
 Lemma knownp_mono lv lv' n : vle lv lv' -> knownp lv n -> knownp lv' n.
 Proof. intros (H & _) [->|(k & Hk)]; [now left|right; exists k; auto]. Qed.
 
@@ -543,9 +553,15 @@ Proof.
 Qed.
 
 Lemma S_ld_flags {R} t n (k : V -> prog R) lv :
-  knownp lv n -> (forall f key, SAFE t (k (VFl f key)) (addfl n f key lv)) -> SAFE t (Act (a_ld_flags n) k) lv.
+  knownp lv n ->
+  (forall f key, (n = null -> f = 0) -> (n = root -> f = 5) -> (forall f' key', In (n, f', key') (vfl lv) -> f' = f /\ key' = key) ->
+     SAFE t (k (VFl f key)) (addfl n f key lv)) ->
+  SAFE t (Act (a_ld_flags n) k) lv.
 Proof.
-  intros Hk H. apply S_keep; [tl|]. intros g a Hs Hv. exists (addfl n (flags g n) (ikey g n) lv). split; [now apply lv_ok_addfl|apply H].
+  intros Hk H. apply S_keep; [tl|]. intros g a Hs Hv. exists (addfl n (flags g n) (ikey g n) lv). split; [now apply lv_ok_addfl|].
+  apply H; [intros ->; apply (s_null _ _ Hs)|intros ->; apply (s_root _ _ Hs)|].
+  intros f' key' Hin. pose proof (s_views _ _ Hs t) as Vt. rewrite Hv in Vt. destruct Vt as (_ & H2 & _). rewrite Forall_forall in H2.
+  destruct (H2 _ Hin) as (_ & E1 & E2). cbn [fst snd] in *. auto.
 Qed.
 
 Lemma S_ld_flags_own {R} t ni f key l r (k : V -> prog R) lv :
@@ -555,15 +571,21 @@ Proof.
   destruct Vt as (_ & _ & _ & H4 & _). rewrite Ho in H4. destruct H4 as (_ & E1 & E2 & _). cbn [a_ld_flags fst snd]. now rewrite E1, E2.
 Qed.
 
+Lemma kpath_ok g a t k0 pp : IS g a -> kpath (view a t) k0 pp -> apub a pp = true /\ (internal g pp -> path g k0 root pp).
+Proof.
+  intros Hs [->|Hin]; [split; [apply (s_rootpub _ _ Hs)|intros _; constructor]|].
+  destruct (s_views _ _ Hs t) as (H1 & _). rewrite Forall_forall in H1. apply (H1 _ Hin).
+Qed.
+
 Lemma S_ld_child {R} t k0 pp fp kp (k : V -> prog R) lv :
-  In (k0, pp) (vpa lv) -> In (pp, fp, kp) (vfl lv) -> is_internal_f fp = true ->
+  kpath lv k0 pp -> In (pp, fp, kp) (vfl lv) -> is_internal_f fp = true ->
   (forall c, c <> root -> SAFE t (k (VP c)) (addpa k0 c lv)) ->
   SAFE t (Act (a_ld_child pp (0 <=? cmp_node k0 fp kp)) k) lv.
 Proof.
   intros Hpa Hfl Hint H. apply S_keep; [tl|]. intros g a Hs Hv. cbn [a_ld_child fst snd].
   pose proof (s_views _ _ Hs t) as Vt. rewrite Hv in Vt. pose proof Vt as (H1 & H2 & H3 & H4 & H5).
   pose proof H1 as H1'. pose proof H2 as H2'. rewrite Forall_forall in H1', H2'.
-  destruct (H1' _ Hpa) as [P1 P2]. destruct (H2' _ Hfl) as (F1 & F2 & F3). cbn [fst snd] in *.
+  rewrite <- Hv in Hpa. destruct (kpath_ok g a t k0 pp Hs Hpa) as [P1 P2]. destruct (H2' _ Hfl) as (F1 & F2 & F3). cbn [fst snd] in *.
   assert (Hi : internal g pp) by (unfold internal; now rewrite F2).
   assert (Hd : dirk g k0 pp = (0 <=? cmp_node k0 fp kp)) by (unfold dirk; now rewrite F2, F3).
   set (c := child g pp (0 <=? cmp_node k0 fp kp)).
@@ -660,3 +682,677 @@ Proof.
   - intros n Hn1 Hn2 Hn3. destruct (H5 n Hn1 Hn2 ltac:(lia)) as (A & B & C). split; [exact A|]. split; [exact B|].
     intros f' key' l' r' E. inversion E; subst n. lia.
 Qed.
+
+(** ** the child CAS of help_insert *)
+Definition ins_shape (k0 : Z) (p l0 : ptr) (f0 : Z) (leaf : ptr) (fn keyn : Z) (a b : ptr) : Prop :=
+  let ncmp := cmp_node k0 f0 (lkey l0) in
+  (ncmp < 0 /\ a = leaf /\ b = l0 /\ ((p <> root /\ fn = 1 /\ keyn = lkey l0) \/ (p = root /\ fn = 3))) \/
+  (0 < ncmp /\ a = l0 /\ b = leaf /\ fn = 1 /\ keyn = k0).
+
+Lemma leaf_key g l : flags g l = 0 -> node_key g l = lkey l.
+Proof. intros E. rewrite node_key_fin by (rewrite E; reflexivity). rewrite E. reflexivity. Qed.
+
+Lemma S_cas_child_ins {R} t k0 p fp kp l0 f0 kl f0a kla ni fn keyn a b leaf (k : V -> prog R) lv :
+  0 <= k0 < 8 ->
+  kpath lv k0 p -> In (p, fp, kp) (vfl lv) -> is_internal_f fp = true ->
+  In (l0, f0, kl) (vfl lv) -> In (l0, f0a, kla) (vfl lv) -> is_internal_f f0a = false ->
+  vni lv = Some (ni, fn, keyn, a, b) -> vleaf lv = Some leaf -> lkey leaf = k0 ->
+  ins_shape k0 p l0 f0 leaf fn keyn a b ->
+  (forall cur, SAFE t (k (VCP false cur)) lv) ->
+  SAFE t (k (VCP true l0)) (mkLV (vpa lv) (vfl lv) None None (vser lv)) ->
+  SAFE t (Act (a_cas_child p (0 <=? cmp_node k0 fp kp) l0 ni) k) lv.
+Proof.
+  intros Hk0 Hpa Hflp Hip Hfl0 Hfl0a Hil0 Hni Hleaf Hlk Hshape Hfail Hok. apply S_act. intros g ax Hs Hv.
+  pose proof (s_views _ _ Hs t) as Vt. rewrite Hv in Vt. pose proof Vt as (H1 & H2 & H3 & H4 & H5).
+  pose proof H1 as H1'. pose proof H2 as H2'. rewrite Forall_forall in H1', H2'.
+  assert (Hpa' : kpath (view ax t) k0 p) by (rewrite Hv; exact Hpa).
+  destruct (kpath_ok g ax t k0 p Hs Hpa') as [P1 P2]. destruct (H2' _ Hflp) as (F1 & F2 & F3). destruct (H2' _ Hfl0) as (L1 & L2 & _). destruct (H2' _ Hfl0a) as (_ & L2a & _). cbn [fst snd] in *.
+  rewrite Hni in H4. destruct H4 as (((O1 & O2 & O3) & O4) & N1 & N2 & N3 & N4).
+  rewrite Hleaf in H3. destruct H3 as ((Q1 & Q2 & Q3) & Q4).
+  assert (Hi : internal g p) by (unfold internal; now rewrite F2).
+  assert (Hd : dirk g k0 p = (0 <=? cmp_node k0 fp kp)) by (unfold dirk; now rewrite F2, F3).
+  rewrite <- Hd. set (d := dirk g k0 p). unfold a_cas_child.
+  destruct (Nat.eqb_spec (child g p d) l0) as [Ec|Ec]; cbn [fst snd].
+  2:{ exists (apub ax), lv. split; [|apply Hfail]. apply (IS_sb g g ax t None); auto; [intros x _; auto|exact Logic.I|discriminate]. }
+  set (g' := set_child g p d ni).
+  set (pub' := fun x => Nat.eqb x ni || Nat.eqb x leaf || apub ax x).
+  exists pub', (mkLV (vpa lv) (vfl lv) None None (vser lv)). split; [|rewrite Ec; exact Hok].
+  pose proof (P2 Hi) as Hpath.
+  assert (Hroot : internal g root) by (unfold internal; rewrite (s_root _ _ Hs); reflexivity).
+  assert (Hkroot : node_key g root = 1001) by (unfold node_key; rewrite (s_root _ _ Hs); reflexivity).
+  assert (Hl0leaf : ~ internal g l0) by (unfold internal; rewrite L2a, Hil0; discriminate).
+  assert (Hleafleaf : ~ internal g leaf) by (unfold internal; rewrite Q4; discriminate).
+  assert (Hkleaf : node_key g leaf = k0) by (rewrite leaf_key by exact Q4; exact Hlk).
+  assert (Hnep : ni <> p) by (intros ->; congruence).
+  assert (Hpl0 : apub ax l0 = true) by (rewrite <- Ec; now apply (s_closed _ _ Hs)).
+  (* the keys *)
+  assert (Hkeys : internal g ni /\ ~ internal g a /\ ~ internal g b /\
+                  ((a = l0 /\ node_key g b = k0) \/ (b = l0 /\ node_key g a = k0)) /\
+                  node_key g a < node_key g ni <= node_key g b /\ (p = root -> node_key g ni = 1000)).
+  { unfold ins_shape in Hshape. destruct Hshape as [(Hc & -> & -> & Hcase)|(Hc & -> & -> & -> & ->)].
+    - destruct Hcase as [(Npr & -> & ->)|(-> & ->)].
+      + assert (Hfin : node_key g l0 < 1000).
+        { rewrite <- Ec. apply below_inf1; auto; [apply (s_T _ _ Hs)|apply (s_L _ _ Hs)|lia]. }
+        assert (Hinf : inf_of (flags g l0) = 0) by (destruct (Z.eq_dec (inf_of (flags g l0)) 0) as [E|E]; [exact E|pose proof (node_key_inf _ _ E); lia]).
+        assert (Hnl0 : node_key g l0 = lkey l0).
+        { rewrite node_key_fin by exact Hinf. unfold internal in Hl0leaf. destruct (is_internal_f (flags g l0)); [contradiction|reflexivity]. }
+        assert (Hnni : node_key g ni = lkey l0) by (rewrite node_key_fin by (rewrite N1; reflexivity); rewrite N1, N2; reflexivity).
+        unfold cmp_node in Hc. rewrite <- L2, Hinf in Hc. cbn [Z.eqb] in Hc. unfold cmp3 in Hc.
+        destruct (Z.ltb_spec k0 (lkey l0)); [|destruct (k0 =? lkey l0); lia].
+        repeat split; auto; try (unfold internal; rewrite N1; reflexivity); try (right; split; auto; fail); try (left; split; auto; fail); try lia; try (intros; congruence).
+      + assert (Hd0 : d = false).
+        { unfold d. destruct (dirk g k0 root) eqn:E; [|reflexivity]. apply (dirk_spec g k0 root Hroot ltac:(lia)) in E. lia. }
+        assert (Hnl0 : node_key g l0 = 1000) by (rewrite <- Ec, Hd0; apply (s_L _ _ Hs)).
+        assert (Hnni : node_key g ni = 1000) by (unfold node_key; rewrite N1; reflexivity).
+        repeat split; auto; try (unfold internal; rewrite N1; reflexivity); try (right; split; auto; fail); try (left; split; auto; fail); try lia; try (intros; congruence).
+    - assert (Hinf : inf_of (flags g l0) = 0).
+      { unfold cmp_node in Hc. rewrite <- L2 in Hc. destruct (Z.eqb_spec (inf_of (flags g l0)) 0); [assumption|lia]. }
+      assert (Hnl0 : node_key g l0 = lkey l0).
+      { rewrite node_key_fin by exact Hinf. unfold internal in Hl0leaf. destruct (is_internal_f (flags g l0)); [contradiction|reflexivity]. }
+      assert (Hnni : node_key g ni = k0) by (rewrite node_key_fin by (rewrite N1; reflexivity); rewrite N1, N2; reflexivity).
+      unfold cmp_node in Hc. rewrite <- L2, Hinf in Hc. cbn [Z.eqb] in Hc. unfold cmp3 in Hc.
+      destruct (Z.ltb_spec k0 (lkey l0)); [lia|]. destruct (Z.eqb_spec k0 (lkey l0)); [lia|].
+      repeat split; auto; try (unfold internal; rewrite N1; reflexivity); try (right; split; auto; fail); try (left; split; auto; fail); try lia; try (intros; congruence).
+      intros ->. exfalso. assert (Hd0 : d = false).
+      { unfold d. destruct (dirk g k0 root) eqn:E; [|reflexivity]. apply (dirk_spec g k0 root Hroot ltac:(lia)) in E. lia. }
+      assert (node_key g l0 = 1000) by (rewrite <- Ec, Hd0; apply (s_L _ _ Hs)). lia. }
+  destruct Hkeys as (Kni & Ka & Kb & Kab & Kord & Kroot). rewrite <- N3 in Ka, Kab, Kord. rewrite <- N4 in Kb, Kab, Kord.
+  assert (HT' : T g' root (-1) 1002).
+  { apply (T_insert g k0 p ni); auto; try lia; [fold d; rewrite Ec; exact Hl0leaf|fold d; rewrite Ec; exact Kab|apply (s_T _ _ Hs)]. }
+  assert (Ef : flags g' = flags g) by (unfold g', set_child; destruct d; reflexivity).
+  assert (Ek : ikey g' = ikey g) by (unfold g', set_child; destruct d; reflexivity).
+  assert (Ei : forall x, internal g' x <-> internal g x) by (intros x; unfold internal; now rewrite Ef).
+  assert (Eo : forall x dd, (x <> p \/ dd <> d) -> child g' x dd = child g x dd).
+  { intros x dd Hx. unfold g', set_child, child. destruct d, dd; cbn; unfold upd1; try reflexivity;
+      destruct (Nat.eqb_spec x p); try reflexivity; destruct Hx; congruence. }
+  assert (Es : child g' p d = ni) by (unfold g', set_child, child; destruct d; cbn; unfold upd1; now rewrite Nat.eqb_refl).
+  assert (Hpub' : forall x, apub ax x = true -> pub' x = true) by (intros x Hx; unfold pub'; rewrite Hx; apply orb_true_r).
+  assert (Hpubni : pub' ni = true) by (unfold pub'; now rewrite Nat.eqb_refl).
+  assert (Hpubleaf : pub' leaf = true) by (unfold pub'; rewrite Nat.eqb_refl; apply orb_true_iff; left; apply orb_true_r).
+  assert (Hpub'inv : forall x, pub' x = true -> x = ni \/ x = leaf \/ apub ax x = true).
+  { intros x Hx. unfold pub' in Hx. apply orb_true_iff in Hx. destruct Hx as [Hx|Hx]; [|auto]. apply orb_true_iff in Hx.
+    destruct Hx as [Hx|Hx]; apply Nat.eqb_eq in Hx; auto. }
+  (* views *)
+  assert (Hparts : forall lv0, 
+            Forall (fun kn => apub ax (snd kn) = true /\ (internal g (snd kn) -> path g (fst kn) root (snd kn))) (vpa lv0) ->
+            Forall (fun x => apub ax (fst (fst x)) = true /\ flags g (fst (fst x)) = snd (fst x) /\ ikey g (fst (fst x)) = snd x) (vfl lv0) ->
+            Forall (fun kn => pub' (snd kn) = true /\ (internal g' (snd kn) -> path g' (fst kn) root (snd kn))) (vpa lv0) /\
+            Forall (fun x => pub' (fst (fst x)) = true /\ flags g' (fst (fst x)) = snd (fst x) /\ ikey g' (fst (fst x)) = snd x) (vfl lv0)).
+  { intros lv0 A B. split; rewrite Forall_forall in *.
+    - intros kn Hin. destruct (A _ Hin) as [A1 A2]. split; [now apply Hpub'|]. intros Hx. apply Ei in Hx.
+      apply path_insert; auto. fold d. rewrite Ec. exact Hl0leaf.
+    - intros x Hin. destruct (B _ Hin) as (B1 & B2 & B3). rewrite Ef, Ek. split; [now apply Hpub'|auto]. }
+  constructor; cbn [apub mk_a].
+  - exact HT'.
+  - rewrite Ef. apply (s_root _ _ Hs).
+  - change (lft g' root) with (child g' root false). rewrite (node_key_same g g') by (now rewrite ?Ef, ?Ek).
+    destruct (Nat.eq_dec p root) as [Epr|Npr].
+    + subst p. assert (Hd0 : d = false).
+      { unfold d. destruct (dirk g k0 root) eqn:E; [|reflexivity]. apply (dirk_spec g k0 root Hroot ltac:(lia)) in E. lia. }
+      rewrite <- Hd0 at 1. rewrite Es. now apply Kroot.
+    + rewrite Eo by (left; congruence). apply (s_L _ _ Hs).
+  - intros n dd Hn Hin. apply Ei in Hin. destruct (Hpub'inv n Hn) as [->|[->|Hp]]; [| contradiction |].
+    + rewrite Eo by (now left). destruct dd; cbn [child]; [rewrite N4|rewrite N3];
+        destruct Hshape as [(_ & -> & -> & _)|(_ & -> & -> & _)]; try (intros E; rewrite E in Q1; unfold root in Q1; lia);
+        rewrite <- Ec; apply (s_noroot _ _ Hs); auto.
+    + destruct (Nat.eq_dec n p) as [->|Nn]; [destruct (Bool.bool_dec dd d) as [->|Nd]|].
+      * rewrite Es. intros E. rewrite E in O1. unfold root in O1. lia.
+      * rewrite Eo by (right; exact Nd). now apply (s_noroot _ _ Hs).
+      * rewrite Eo by (left; exact Nn). now apply (s_noroot _ _ Hs).
+  - intros n dd Hn Hin. apply Ei in Hin. destruct (Hpub'inv n Hn) as [->|[->|Hp]]; [| contradiction |].
+    + rewrite Eo by (now left). destruct dd; cbn [child]; [rewrite N4|rewrite N3];
+        destruct Hshape as [(_ & -> & -> & _)|(_ & -> & -> & _)]; auto.
+    + destruct (Nat.eq_dec n p) as [->|Nn]; [destruct (Bool.bool_dec dd d) as [->|Nd]|].
+      * rewrite Es. exact Hpubni.
+      * rewrite Eo by (right; exact Nd). apply Hpub'. now apply (s_closed _ _ Hs).
+      * rewrite Eo by (left; exact Nn). apply Hpub'. now apply (s_closed _ _ Hs).
+  - apply Hpub'. apply (s_rootpub _ _ Hs).
+  - intros u. destruct (Nat.eq_dec u t) as [->|Nu].
+    + rewrite view_mk_same. destruct (Hparts lv H1 H2) as [R1 R2]. split; [exact R1|]. split; [exact R2|]. cbn [vleaf vni vser].
+      split; [exact Logic.I|]. split; [exact Logic.I|].
+      intros n Hn1 Hn2 Hn3. destruct (H5 n Hn1 Hn2 Hn3) as (A & B & C). split; [|split; [discriminate|intros; discriminate]].
+      destruct (pub' n) eqn:En; [|reflexivity]. exfalso. destruct (Hpub'inv n En) as [->|[->|Hp]]; [|apply B; exact Hleaf|rewrite Hp in A; discriminate].
+      rewrite Hni in C. eapply C; reflexivity.
+    + rewrite view_mk_other by exact Nu. destruct (s_views _ _ Hs u) as (U1 & U2 & U3 & U4 & U5).
+      destruct (Hparts (view ax u) U1 U2) as [R1 R2]. split; [exact R1|]. split; [exact R2|].
+      assert (Hup : forall x, (4 <= x)%nat -> owner_of x = u -> apub ax x = false -> pub' x = false).
+      { intros x X1 X2 X3. destruct (pub' x) eqn:En; [|reflexivity]. exfalso. destruct (Hpub'inv x En) as [->|[->|Hp]];
+          [rewrite X2 in O3; exact (Nu O3)|rewrite X2 in Q3; exact (Nu Q3)|rewrite Hp in X3; discriminate]. }
+      split; [|split].
+      * destruct (vleaf (view ax u)) as [l|]; [|exact Logic.I]. destruct U3 as [(L1' & L2' & L3') L4']. rewrite Ef. repeat split; auto.
+      * destruct (vni (view ax u)) as [[[[[m f] key] l] r]|]; [|exact Logic.I]. destruct U4 as [((M1 & M2 & M3) & M4) (M5 & M6 & M7 & M8)].
+        assert (Nm : m <> p) by (intros ->; congruence).
+        rewrite Ef, Ek. change (lft g' m) with (child g' m false). change (rgt g' m) with (child g' m true). rewrite !Eo by (now left).
+        repeat split; auto.
+      * intros n Hn1 Hn2 Hn3. destruct (U5 n Hn1 Hn2 Hn3) as (A & B & C). split; [now apply Hup|auto].
+  - rewrite Ef. apply (s_null _ _ Hs).
+Qed.
+
+(** ** monotone-closed safety *)
+Definition SAFEm {R} (t : nat) (p : prog R) (lv : lview) : Prop := forall lv', vle lv lv' -> SAFE t p lv'.
+
+Lemma Sm_ret {R} t (r : R) lv : SAFEm t (Ret r) lv.
+Proof. intros lv' _. exact Logic.I. Qed.
+Lemma Sm_emit {R} t es (k : prog R) lv : SAFEm t k lv -> SAFEm t (Emit es k) lv.
+Proof. intros H lv' Hle. apply S_emit. now apply H. Qed.
+Lemma Sm_nx {R} t f (k : V -> prog R) lv : treelike f -> (forall v, SAFEm t (k v) lv) -> SAFEm t (Act f k) lv.
+Proof. intros Hf H lv' Hle. apply S_nx; [exact Hf|]. intros v. now apply H. Qed.
+Ltac snx := apply Sm_nx; [tl|intros ?].
+
+Lemma vle_addfl_mono n f key lv lv' : vle lv lv' -> vle (addfl n f key lv) (addfl n f key lv').
+Proof. intros (H1 & H2 & H3 & H4 & H5). repeat split; cbn; auto. intros x [<-|Hx]; [now left|right; auto]. Qed.
+Lemma vle_addpa_mono k c lv lv' : vle lv lv' -> vle (addpa k c lv) (addpa k c lv').
+Proof. intros (H1 & H2 & H3 & H4 & H5). repeat split; cbn; auto. intros x [<-|Hx]; [now left|right; auto]. Qed.
+
+Lemma Sm_ld_flags {R} t n (k : V -> prog R) lv :
+  knownp lv n ->
+  (forall f key lv1, vle lv lv1 -> In (n, f, key) (vfl lv1) -> (n = null -> f = 0) -> (n = root -> f = 5) ->
+     (forall f' key', In (n, f', key') (vfl lv) -> f' = f /\ key' = key) -> SAFEm t (k (VFl f key)) lv1) ->
+  SAFEm t (Act (a_ld_flags n) k) lv.
+Proof.
+  intros Hk H lv' Hle. apply S_ld_flags; [eapply knownp_mono; eauto|]. intros f key F0 F5 Fc.
+  apply (H f key (addfl n f key lv')); auto; [eapply vle_trans; [exact Hle|apply vle_addfl]|now left| |apply vle_refl].
+  intros f' key' Hin. apply Fc. destruct Hle as (_ & X & _). now apply X.
+Qed.
+
+Lemma Sm_ld_flags_own {R} t ni f key l r (k : V -> prog R) lv :
+  vni lv = Some (ni, f, key, l, r) -> SAFEm t (k (VFl f key)) lv -> SAFEm t (Act (a_ld_flags ni) k) lv.
+Proof.
+  intros Ho H lv' Hle. apply (S_ld_flags_own t ni f key l r); [destruct Hle as (_ & _ & _ & E & _); congruence|now apply H].
+Qed.
+
+Lemma Sm_ld_child {R} t k0 pp fp kp (k : V -> prog R) lv :
+  kpath lv k0 pp -> In (pp, fp, kp) (vfl lv) -> is_internal_f fp = true ->
+  (forall c lv1, vle lv lv1 -> c <> root -> In (k0, c) (vpa lv1) -> SAFEm t (k (VP c)) lv1) ->
+  SAFEm t (Act (a_ld_child pp (0 <=? cmp_node k0 fp kp)) k) lv.
+Proof.
+  intros H1 H2 H3 H lv' Hle. pose proof Hle as (L1 & L2 & _). apply S_ld_child; auto; [eapply kpath_mono; eauto|]. intros c Nc.
+  apply (H c (addpa k0 c lv')); auto; [eapply vle_trans; [exact Hle|apply vle_addpa]|now left|apply vle_refl].
+Qed.
+
+Lemma vle_set_ni lv lv' x : vle lv lv' -> vle (set_ni lv x) (set_ni lv' x).
+Proof. intros (H1 & H2 & H3 & H4 & H5). repeat split; cbn; auto. Qed.
+
+Lemma Sm_own_ni {R} t f (k : V -> prog R) lv ni f0 key0 l0 r0 f1 key1 l1 r1 :
+  vni lv = Some (ni, f0, key0, l0, r0) ->
+  (forall g, same_but g (fst (fst (f g))) (Some ni) /\
+             (flags g ni = f0 -> ikey g ni = key0 -> lft g ni = l0 -> rgt g ni = r0 ->
+              let g' := fst (fst (f g)) in flags g' ni = f1 /\ ikey g' ni = key1 /\ lft g' ni = l1 /\ rgt g' ni = r1)) ->
+  (forall v, SAFEm t (k v) (set_ni lv (Some (ni, f1, key1, l1, r1)))) ->
+  SAFEm t (Act f k) lv.
+Proof.
+  intros Ho Hf H lv' Hle. eapply S_own_ni; [destruct Hle as (_ & _ & _ & E & _); rewrite E; exact Ho|exact Hf|].
+  intros v. apply H. now apply vle_set_ni.
+Qed.
+
+Lemma Sm_alloc_leaf {R} t sr key (k : V -> prog R) lv :
+  (t < 64)%nat -> (key < 8)%nat -> (vser lv <= sr)%nat ->
+  (forall v, SAFEm t (k v) (mkLV (vpa lv) (vfl lv) (Some (mk_id t sr 0 key)) (vni lv) (S sr))) ->
+  SAFEm t (Act (a_st_flags (mk_id t sr 0 key) 0) k) lv.
+Proof.
+  intros Ht Hk Hs H lv' Hle. pose proof Hle as (L1 & L2 & L3 & L4 & L5). apply S_alloc_leaf; auto; [lia|].
+  intros v. apply (H v). repeat split; cbn; auto.
+Qed.
+Lemma Sm_alloc_ni {R} t sr (k : V -> prog R) lv :
+  (t < 64)%nat -> (vser lv <= sr)%nat ->
+  (forall v key l r, SAFEm t (k v) (mkLV (vpa lv) (vfl lv) (vleaf lv) (Some (mk_id t sr 1 0, 1, key, l, r)) (S sr))) ->
+  SAFEm t (Act (a_st_flags (mk_id t sr 1 0) 1) k) lv.
+Proof.
+  intros Ht Hs H lv' Hle. pose proof Hle as (L1 & L2 & L3 & L4 & L5). apply S_alloc_ni; auto; [lia|].
+  intros v key l r. apply (H v key l r). repeat split; cbn; auto.
+Qed.
+
+Lemma Sm_cas_child_ins {R} t k0 p fp kp l0 f0 kl f0a kla ni fn keyn a b leaf (k : V -> prog R) lv :
+  0 <= k0 < 8 ->
+  kpath lv k0 p -> In (p, fp, kp) (vfl lv) -> is_internal_f fp = true ->
+  In (l0, f0, kl) (vfl lv) -> In (l0, f0a, kla) (vfl lv) -> is_internal_f f0a = false ->
+  vni lv = Some (ni, fn, keyn, a, b) -> vleaf lv = Some leaf -> lkey leaf = k0 ->
+  ins_shape k0 p l0 f0 leaf fn keyn a b ->
+  (forall cur, SAFEm t (k (VCP false cur)) lv) ->
+  SAFEm t (k (VCP true l0)) (mkLV (vpa lv) (vfl lv) None None (vser lv)) ->
+  SAFEm t (Act (a_cas_child p (0 <=? cmp_node k0 fp kp) l0 ni) k) lv.
+Proof.
+  intros A1 A2 A3 A4 A5 A6 A7 A8 A9 A10 A11 Hf Hok lv' Hle. pose proof Hle as (L1 & L2 & L3 & L4 & L5).
+  apply (S_cas_child_ins t k0 p fp kp l0 f0 kl f0a kla ni fn keyn a b leaf k lv' A1 (kpath_mono _ _ _ _ Hle A2) (L2 _ A3) A4 (L2 _ A5) (L2 _ A6) A7);
+    [congruence|congruence|exact A10|exact A11| |].
+  - intros cur. now apply Hf.
+  - apply Hok. repeat split; cbn; auto.
+Qed.
+
+(** ** the functions of the model *)
+Definition tlk (t : nat) (lv : lview) (s : TL) : Prop := tid s = t /\ (vser lv <= ser s)%nat.
+Lemma tlk_vle t lv lv1 s : vle lv lv1 -> tlk t lv s -> tlk t lv1 s.
+Proof. intros (_ & _ & _ & _ & E) [H1 H2]. split; [exact H1|lia]. Qed.
+Lemma tlk_alloc1 t lv s x s1 : alloc1 s = (x, s1) -> tlk t lv s -> tlk t lv s1.
+Proof. unfold alloc1. destruct (fl s); intros E H; inversion E; subst; exact H. Qed.
+Lemma tlk_free1 t lv x s : tlk t lv s -> tlk t lv (free1 x s).
+Proof. intros H. exact H. Qed.
+Lemma tlk_allocn t lv : forall n s xs s1, allocn n s = (xs, s1) -> tlk t lv s -> tlk t lv s1.
+Proof.
+  induction n as [|n IH]; intros s xs s1 E H; cbn [allocn] in E; [inversion E; subst; exact H|].
+  destruct (alloc1 s) as [x s'] eqn:Ea. destruct (allocn n s') as [ys s2] eqn:En. inversion E; subst.
+  eapply IH; [exact En|]. eapply tlk_alloc1; eauto.
+Qed.
+
+Lemma Sm_assign {R} t s slot (k : prog R) lv : SAFEm t k lv -> SAFEm t (g_assign s slot k) lv.
+Proof. intros H. unfold g_assign. snx. snx. exact H. Qed.
+Lemma Sm_clear {R} t s slot (k : prog R) lv : SAFEm t k lv -> SAFEm t (g_clear s slot k) lv.
+Proof. intros H. unfold g_clear. snx. exact H. Qed.
+Lemma Sm_copy {R} t s a b (k : prog R) lv : SAFEm t k lv -> SAFEm t (g_copy s a b k) lv.
+Proof. intros H. unfold g_copy. snx. snx. snx. exact H. Qed.
+Lemma Sm_retire {R} t s (k : prog R) lv : SAFEm t k lv -> SAFEm t (retire s k) lv.
+Proof. intros H. unfold retire. snx. snx. exact H. Qed.
+Lemma Sm_free_all {R} t slots : forall s (k : TL -> prog R) lv,
+  tlk t lv s -> (forall s', tlk t lv s' -> SAFEm t (k s') lv) -> SAFEm t (g_free_all s slots k) lv.
+Proof.
+  induction slots as [|x r IH]; intros s k lv Ht H; cbn [g_free_all]; [now apply H|]. apply Sm_clear. apply IH; [now apply tlk_free1|exact H].
+Qed.
+
+Lemma T_ga_protect_upd {R} t fuel : forall s slot p (k : option uword -> prog R) lv,
+  (forall r lv1, vle lv lv1 -> SAFEm t (k r) lv1) -> SAFEm t (ga_protect_upd fuel s slot p k) lv.
+Proof.
+  induction fuel as [|f IH]; intros s slot p k lv H; cbn [ga_protect_upd]; [apply H, vle_refl|].
+  snx. snx. snx. snx. destruct (u_eqb _ _); [apply H, vle_refl|]. now apply IH.
+Qed.
+
+Lemma T_ga_protect_child {R} t fuel : forall s slot k0 pp fp kp (k : option ptr -> prog R) lv,
+  kpath lv k0 pp -> In (pp, fp, kp) (vfl lv) -> is_internal_f fp = true ->
+  (forall lv1, vle lv lv1 -> SAFEm t (k None) lv1) ->
+  (forall c lv1, vle lv lv1 -> c <> root -> In (k0, c) (vpa lv1) -> SAFEm t (k (Some c)) lv1) ->
+  SAFEm t (ga_protect_child fuel s slot pp (0 <=? cmp_node k0 fp kp) k) lv.
+Proof.
+  induction fuel as [|f IH]; intros s slot k0 pp fp kp k lv H1 H2 H3 H0 Hk; cbn [ga_protect_child]; [apply H0, vle_refl|].
+  apply Sm_ld_child; auto. intros c1 lv1 V1 N1 I1. snx. snx.
+  apply Sm_ld_child; [eapply kpath_mono; eauto|destruct V1 as (_ & X & _); now apply X|exact H3|].
+  intros c2 lv2 V2 N2 I2. cbn [vptr]. assert (V02 : vle lv lv2) by (eapply vle_trans; eauto).
+  destruct (Nat.eqb c1 c2).
+  - apply Hk; auto. destruct V2 as (X & _). now apply X.
+  - apply IH; auto; [eapply kpath_mono; eauto|destruct V02 as (_ & X & _); now apply X| |].
+    + intros lv3 V3. apply H0. eapply vle_trans; eauto.
+    + intros c lv3 V3. apply Hk. eapply vle_trans; eauto.
+Qed.
+
+Lemma vle_pa lv lv1 x : vle lv lv1 -> In x (vpa lv) -> In x (vpa lv1).
+Proof. intros (H & _). apply H. Qed.
+Lemma vle_fl lv lv1 x : vle lv lv1 -> In x (vfl lv) -> In x (vfl lv1).
+Proof. intros (_ & H & _). apply H. Qed.
+
+Lemma T_protect_child {R} t fuel : forall s slots k0 pp fp kp updp (k : option ptr -> prog R) kf lv,
+  kpath lv k0 pp -> In (pp, fp, kp) (vfl lv) -> is_internal_f fp = true ->
+  (forall lv1, vle lv lv1 -> SAFEm t (k None) lv1) ->
+  (forall c lv1, vle lv lv1 -> c <> root -> In (k0, c) (vpa lv1) -> SAFEm t (k (Some c)) lv1) ->
+  (forall lv1, vle lv lv1 -> SAFEm t kf lv1) ->
+  SAFEm t (protect_child fuel s slots pp (0 <=? cmp_node k0 fp kp) updp k kf) lv.
+Proof.
+  induction fuel as [|f IH]; intros s slots k0 pp fp kp updp k kf lv H1 H2 H3 H0 Hk Hf; cbn [protect_child]; [apply Hf, vle_refl|].
+  apply T_ga_protect_child; auto. intros c lv1 V1 Nc Ic.
+  apply T_ga_protect_child; [eapply kpath_mono; eauto|eapply vle_fl; eauto|exact H3|intros; apply Hf; eapply vle_trans; eauto|].
+  intros cv lv2 V2 _ _. assert (V02 : vle lv lv2) by (eapply vle_trans; eauto). snx.
+  destruct (negb (u_eqb (vw v) updp)); [now apply H0|].
+  destruct (negb (Nat.eqb c cv)).
+  { apply IH; auto; [eapply kpath_mono; eauto|eapply vle_fl; eauto| | |].
+    - intros lv3 V3. apply H0. eapply vle_trans; eauto.
+    - intros c' lv3 V3. apply Hk. eapply vle_trans; eauto.
+    - intros lv3 V3. apply Hf. eapply vle_trans; eauto. }
+  assert (Ic2 : In (k0, c) (vpa lv2)) by exact (vle_pa _ _ _ V2 Ic).
+  destruct (Nat.eqb c null); [apply Sm_clear; now apply Hk|].
+  apply Sm_ld_flags; [right; eauto|]. intros fc kc lv3 V3 _ _ _ _. assert (V03 : vle lv lv3) by (eapply vle_trans; eauto).
+  assert (Ic3 : In (k0, c) (vpa lv3)) by exact (vle_pa _ _ _ V3 Ic2).
+  cbn [Ellen.vfl]. destruct (is_internal_f fc); [apply Sm_clear|apply Sm_assign, Sm_clear]; now apply Hk.
+Qed.
+
+(** state of the descent of search *)
+Definition Jst (lv : lview) (k0 : Z) (st : sst) : Prop :=
+  ((x_leaf st = root /\ x_p st = null) \/
+   (In (k0, x_leaf st) (vpa lv) /\ x_leaf st <> root /\ x_p st <> null /\ kpath lv k0 (x_p st) /\
+    exists fp kp, In (x_p st, fp, kp) (vfl lv) /\ is_internal_f fp = true /\ x_rl st = (0 <=? cmp_node k0 fp kp))) /\
+  (x_gp st = null -> x_p st = null \/ x_p st = root) /\ (x_gp st <> null -> x_p st <> root).
+
+Definition RS (lv : lview) (k0 : Z) (r : sres) (found : bool) : Prop :=
+  kpath lv k0 (r_p r) /\ In (k0, r_leaf r) (vpa lv) /\
+  (exists fp kp, In (r_p r, fp, kp) (vfl lv) /\ is_internal_f fp = true /\ r_rl r = (0 <=? cmp_node k0 fp kp)) /\
+  (exists f0 kl, In (r_leaf r, f0, kl) (vfl lv) /\ is_internal_f f0 = false /\ found = (cmp_node k0 f0 (lkey (r_leaf r)) =? 0)) /\
+  (r_gp r = null -> r_p r = root) /\ (r_gp r <> null -> r_p r <> root).
+
+Lemma RS_mono lv lv1 k0 r fd : vle lv lv1 -> RS lv k0 r fd -> RS lv1 k0 r fd.
+Proof.
+  intros V (A & B & (fp & kp & C1 & C2 & C3) & (f0 & kl & D1 & D2 & D3) & E & F).
+  split; [eapply kpath_mono; eauto|]. split; [eapply vle_pa; eauto|]. split; [exists fp, kp; split; [eapply vle_fl; eauto|auto]|].
+  split; [exists f0, kl; split; [eapply vle_fl; eauto|auto]|auto].
+Qed.
+
+Lemma Jst_mono lv lv1 k0 st : vle lv lv1 -> Jst lv k0 st -> Jst lv1 k0 st.
+Proof.
+  intros V ([A|(A1 & A2 & A3 & A4 & fp & kp & A5 & A6 & A7)] & B & C); (split; [|auto]); [now left|right].
+  split; [eapply vle_pa; eauto|]. split; [exact A2|]. split; [exact A3|]. split; [eapply kpath_mono; eauto|].
+  exists fp, kp. split; [eapply vle_fl; eauto|auto].
+Qed.
+
+Lemma null_ne_root : null <> root. Proof. discriminate. Qed.
+
+Lemma T_srch {R} t fuel : forall s slots k0 st (k : sres -> bool -> prog R) kf lv,
+  Jst lv k0 st ->
+  (forall r found lv1, vle lv lv1 -> RS lv1 k0 r found -> SAFEm t (k r found) lv1) ->
+  (forall lv1, vle lv lv1 -> SAFEm t kf lv1) ->
+  SAFEm t (srch fuel s slots k0 st k kf) lv.
+Proof.
+  induction fuel as [|f IH]; intros s slots k0 st k kf lv HJ Hk Hf; cbn [srch]; [apply Hf, vle_refl|].
+  assert (Hkn : knownp lv (x_leaf st)).
+  { destruct HJ as ([(E & _)|(A1 & _)] & _); [left; exact E|right; eauto]. }
+  apply Sm_ld_flags; [exact Hkn|]. intros f1 key1 lv1 V1 I1 F0 F5 _. cbn [Ellen.vfl].
+  assert (HJ1 : Jst lv1 k0 st) by (eapply Jst_mono; eauto).
+  destruct (is_internal_f f1) eqn:Ei1.
+  - apply Sm_copy, Sm_copy, Sm_copy. cbv zeta. set (pp := x_leaf st).
+    assert (Hretry : forall lv2, vle lv1 lv2 -> SAFEm t (srch f s slots k0 (st_retry (x_p st) (x_updp st) (x_rl st)) k kf) lv2).
+    { intros lv2 V2. apply IH.
+      - split; [left; split; reflexivity|]. cbn [st_retry x_gp x_p]. split; [intros _; now left|intros _; exact null_ne_root].
+      - intros r found lv3 V3. apply Hk. eapply vle_trans; [exact V1|]. eapply vle_trans; eauto.
+      - intros lv3 V3. apply Hf. eapply vle_trans; [exact V1|]. eapply vle_trans; eauto. }
+    apply T_ga_protect_upd. intros ru lv2 V2. destruct ru as [up|]; [|apply Hf; eapply vle_trans; eauto].
+    destruct (Nat.eqb (snd up) 1 || Nat.eqb (snd up) 3); [now apply Hretry|].
+    assert (Hkn2 : knownp lv2 pp) by (eapply knownp_mono; [|exact Hkn]; eapply vle_trans; eauto).
+    apply Sm_ld_flags; [exact Hkn2|]. intros f2 key2 lv3 V3 I3 _ _ Fc. cbn [Ellen.vfl vkey].
+    assert (V13 : vle lv1 lv3) by (eapply vle_trans; eauto).
+    assert (E21 : f1 = f2) by (apply (Fc f1 key1); eapply vle_fl; eauto).
+    assert (Hpp : kpath lv3 k0 pp).
+    { destruct HJ as ([(E & _)|(A1 & _)] & _); [left; exact E|right; eapply vle_pa; [|exact A1]; eapply vle_trans; eauto]. }
+    assert (Hppn : pp <> null) by (intros E; specialize (F0 E); subst f1; discriminate).
+    apply T_protect_child; [exact Hpp|exact I3|congruence| | |].
+    + intros lv4 V4. apply Hretry. eapply vle_trans; eauto.
+    + intros c lv4 V4 Nc Ic. apply IH.
+      * assert (V34 : vle lv3 lv4) by exact V4. split.
+        -- right. split; [exact Ic|]. split; [exact Nc|]. cbn [x_p x_leaf x_rl]. split; [exact Hppn|]. split; [eapply kpath_mono; eauto|].
+           exists f2, key2. split; [eapply vle_fl; eauto|]. split; [congruence|reflexivity].
+        -- cbn [x_gp x_p]. destruct HJ as (Hc & G1 & G2). split.
+           ++ intros E. right. destruct Hc as [(E1 & _)|(_ & _ & N & _)]; [exact E1|contradiction].
+           ++ intros N. destruct Hc as [(_ & E1)|(_ & N1 & _)]; [contradiction|exact N1].
+      * intros r found lv5 V5. apply Hk. eapply vle_trans; [exact V1|]. eapply vle_trans; [exact V13|]. eapply vle_trans; eauto.
+      * intros lv5 V5. apply Hf. eapply vle_trans; [exact V1|]. eapply vle_trans; [exact V13|]. eapply vle_trans; eauto.
+    + intros lv4 V4. apply Hf. eapply vle_trans; [exact V1|]. eapply vle_trans; eauto.
+  - apply Sm_ld_flags; [eapply knownp_mono; eauto|]. intros f2 key2 lv2 V2 I2 _ _ Fc. cbn [Ellen.vfl].
+    assert (E21 : f1 = f2) by (apply (Fc f1 key1); exact I1).
+    assert (V02 : vle lv lv2) by (eapply vle_trans; eauto).
+    apply Hk; [exact V02|]. destruct HJ as ([(E & _)|(A1 & A2 & A3 & A4 & fp & kp & A5 & A6 & A7)] & G1 & G2).
+    { specialize (F5 E). subst f1. discriminate. }
+    unfold RS. cbn [r_p r_leaf r_rl r_gp]. split; [exact (kpath_mono _ _ _ _ V02 A4)|]. split; [exact (vle_pa _ _ _ V02 A1)|].
+    split; [exists fp, kp; split; [exact (vle_fl _ _ _ V02 A5)|auto]|]. split; [exists f2, key2; split; [exact I2|split; [congruence|reflexivity]]|].
+    split; [intros E; destruct (G1 E); [contradiction|assumption]|exact G2].
+Qed.
+
+(** ** insert *)
+Definition ni_ok (lv : lview) (ni : ptr) : Prop := exists fn key l r, vni lv = Some (ni, fn, key, l, r) /\ (fn = 1 \/ fn = 3).
+
+Lemma lor_land_fn fn inf : (fn = 1 \/ fn = 3) -> Z.lor (Z.land fn 1) inf = Z.lor 1 inf.
+Proof. intros [->| ->]; reflexivity. Qed.
+
+Lemma sb_st_flags g n f : same_but g (fst (fst (a_st_flags n f g))) (Some n).
+Proof. intros x Nx. cbn [a_st_flags fst snd flags ikey lft rgt]. unfold upd1. destruct (Nat.eqb_spec x n); [congruence|auto]. Qed.
+Lemma sb_st_left_key g n key x : same_but g (fst (fst (a_st_left_key n key x g))) (Some n).
+Proof. intros y Ny. cbn [a_st_left_key fst snd flags ikey lft rgt]. unfold upd1. destruct (Nat.eqb_spec y n); [congruence|auto]. Qed.
+Lemma sb_st_right g n x : same_but g (fst (fst (a_st_right n x g))) (Some n).
+Proof. intros y Ny. cbn [a_st_right set_child fst snd flags ikey lft rgt]. unfold upd1. destruct (Nat.eqb_spec y n); [congruence|auto]. Qed.
+
+Lemma T_try_insert {R} t s k0 leaf ni r (k : TL -> bool -> prog R) lv :
+  tlk t lv s -> 0 <= k0 < 8 -> RS lv k0 r false -> vleaf lv = Some leaf -> lkey leaf = k0 -> ni_ok lv ni ->
+  (forall s' lv1, tlk t lv1 s' -> vleaf lv1 = Some leaf -> ni_ok lv1 ni -> SAFEm t (k s' false) lv1) ->
+  (forall s' lv1, tlk t lv1 s' -> SAFEm t (k s' true) lv1) ->
+  SAFEm t (try_insert s k0 leaf ni r k) lv.
+Proof.
+  intros Ht Hk0 HRS Hleaf Hlk (fn & keyn & ca & cb & Hni & Hfn) Hkf Hkt. unfold try_insert.
+  destruct HRS as (Hp & Hl & (fp & kp & P1 & P2 & P3) & (f0s & kls & L1 & L2 & L3) & G1 & G2). rewrite P3.
+  apply Sm_ld_child; [exact Hp|exact P1|exact P2|]. intros c lv1 V1 _ _.
+  assert (Hni1 : vni lv1 = Some (ni, fn, keyn, ca, cb)) by (destruct V1 as (_ & _ & _ & E & _); congruence).
+  assert (Hleaf1 : vleaf lv1 = Some leaf) by (destruct V1 as (_ & _ & E & _); congruence).
+  cbn [vptr]. destruct (negb (Nat.eqb c (r_leaf r))).
+  { apply Hkf; [eapply tlk_vle; eauto|exact Hleaf1|exists fn, keyn, ca, cb; auto]. }
+  apply Sm_ld_flags; [right; exists k0; exact (vle_pa _ _ _ V1 Hl)|]. intros f0 kl lv2 V2 I2 _ _ Fc. cbn [Ellen.vfl].
+  assert (V02 : vle lv lv2) by (eapply vle_trans; eauto).
+  assert (Ef0 : f0s = f0) by (apply (Fc f0s kls); exact (vle_fl _ _ _ V1 L1)).
+  assert (Hni2 : vni lv2 = Some (ni, fn, keyn, ca, cb)) by (destruct V2 as (_ & _ & _ & E & _); congruence).
+  assert (Hleaf2 : vleaf lv2 = Some leaf) by (destruct V2 as (_ & _ & E & _); congruence).
+  set (ncmp := cmp_node k0 f0 (lkey (r_leaf r))).
+  assert (Hnz : (ncmp =? 0) = false) by (unfold ncmp; rewrite <- Ef0; symmetry; exact L3).
+  (* after the three stores into my internal node *)
+  assert (Hrest : forall fn' keyn' a' b' lv3, (incl (vpa lv) (vpa lv3) /\ incl (vfl lv) (vfl lv3)) ->
+            True -> vni lv3 = Some (ni, fn', keyn', a', b') -> vleaf lv3 = Some leaf ->
+            (fn' = 1 \/ fn' = 3) -> vser lv3 = vser lv ->
+            ins_shape k0 (r_p r) (r_leaf r) f0 leaf fn' keyn' a' b' ->
+            In (r_leaf r, f0, kl) (vfl lv3) ->
+            SAFEm t (let (g, s1) := alloc1 s in
+                     let (op, s2) := new_obj s1 2 0 in
+                     g_assign s2 g
+                       (Act (a_cas_upd (r_p r) (fst (r_updp r), 0%nat) (op, 2%nat)) (fun c0 =>
+                          if vok c0 then help_insert r ni op (retire s2 (g_clear s2 g (k (free1 g s2) true)))
+                          else g_clear s2 g (k (free1 g s2) false)))) lv3).
+  { intros fn' keyn' a' b' lv3 [Vp Vf] _ Hni3 Hleaf3 Hfn3 Hser3 Hshape I3.
+    destruct (alloc1 s) as [g s1] eqn:Ea. unfold new_obj.
+    assert (Ht2 : tlk t lv3 (free1 g (mkTL (tid s1) (fl s1) (S (ser s1))))).
+    { pose proof (tlk_alloc1 _ _ _ _ _ Ea Ht) as [X1 X2]. split; [exact X1|]. cbn [free1 ser]. lia. }
+    apply Sm_assign. snx. match goal with |- context [vok ?x] => destruct (vok x) end.
+    - unfold help_insert. rewrite P3.
+      assert (Hkp : kpath lv3 k0 (r_p r)) by (destruct Hp as [E|E]; [left; exact E|right; now apply Vp]).
+      apply (Sm_cas_child_ins t k0 (r_p r) fp kp (r_leaf r) f0 kl f0s kls ni fn' keyn' a' b' leaf _ _ Hk0 Hkp (Vf _ P1) P2 I3 (Vf _ L1) L2 Hni3 Hleaf3 Hlk Hshape).
+      + intros cur. snx. snx. apply Sm_retire, Sm_clear. apply Hkt. exact Ht2.
+      + snx. snx. apply Sm_retire, Sm_clear. apply Hkt. destruct Ht2 as [X1 X2]. split; [exact X1|exact X2].
+    - apply Sm_clear. apply Hkf; [exact Ht2|exact Hleaf3|exists fn', keyn', a', b'; auto]. }
+  assert (Hstep : forall inf key' x y,
+            (ins_shape k0 (r_p r) (r_leaf r) f0 leaf (Z.lor 1 inf) key' x y) -> (inf = 0 \/ inf = 2) ->
+            SAFEm t (set_inf ni inf (Act (a_st_left_key ni key' x) (fun _ => Act (a_st_right ni y) (fun _ =>
+                     let (g, s1) := alloc1 s in
+                     let (op, s2) := new_obj s1 2 0 in
+                     g_assign s2 g
+                       (Act (a_cas_upd (r_p r) (fst (r_updp r), 0%nat) (op, 2%nat)) (fun c0 =>
+                          if vok c0 then help_insert r ni op (retire s2 (g_clear s2 g (k (free1 g s2) true)))
+                          else g_clear s2 g (k (free1 g s2) false))))))) lv2).
+  { intros inf key' x y Hshape Hinf. unfold set_inf.
+    apply (Sm_ld_flags_own t ni fn keyn ca cb); [exact Hni2|]. cbn [Ellen.vfl]. rewrite (lor_land_fn fn inf Hfn).
+    eapply (Sm_own_ni t _ _ lv2 ni fn keyn ca cb (Z.lor 1 inf) keyn ca cb); [exact Hni2| |].
+    { intros g. split; [apply sb_st_flags|]. intros E1 E2 E3 E4. cbn [a_st_flags fst snd flags ikey lft rgt]. unfold upd1. rewrite Nat.eqb_refl. auto. }
+    intros _. set (lv3 := set_ni lv2 (Some (ni, Z.lor 1 inf, keyn, ca, cb))).
+    eapply (Sm_own_ni t _ _ lv3 ni (Z.lor 1 inf) keyn ca cb (Z.lor 1 inf) key' x cb); [reflexivity| |].
+    { intros g. split; [apply sb_st_left_key|]. intros E1 E2 E3 E4. cbn [a_st_left_key fst snd flags ikey lft rgt]. unfold upd1. rewrite Nat.eqb_refl. auto. }
+    intros _. set (lv4 := set_ni lv3 (Some (ni, Z.lor 1 inf, key', x, cb))).
+    eapply (Sm_own_ni t _ _ lv4 ni (Z.lor 1 inf) key' x cb (Z.lor 1 inf) key' x y); [reflexivity| |].
+    { intros g. split; [apply sb_st_right|]. intros E1 E2 E3 E4. cbn [a_st_right set_child fst snd flags ikey lft rgt]. unfold upd1. rewrite Nat.eqb_refl. auto. }
+    intros _. apply (Hrest (Z.lor 1 inf) key' x y); auto.
+    - destruct V02 as (X1 & X2 & _). split; cbn; assumption.
+    - destruct Hinf as [->| ->]; [left|right]; reflexivity.
+    - cbn. destruct V02 as (_ & _ & _ & _ & E). exact E. }
+  destruct (Z.ltb_spec ncmp 0) as [Hc|Hc].
+  - destruct (Nat.eqb_spec (r_gp r) null) as [Eg|Ng]; cbn [negb].
+    + apply (Hstep 2 0 leaf (r_leaf r)); [|now right]. left. fold ncmp. split; [exact Hc|]. split; [reflexivity|]. split; [reflexivity|].
+      right. split; [now apply G1|reflexivity].
+    + apply (Hstep 0 (lkey (r_leaf r)) leaf (r_leaf r)); [|now left]. left. fold ncmp. split; [exact Hc|]. split; [reflexivity|]. split; [reflexivity|].
+      left. split; [now apply G2|]. split; reflexivity.
+  - apply (Hstep 0 k0 (r_leaf r) leaf); [|now left]. right. fold ncmp. apply Z.eqb_neq in Hnz. split; [lia|]. repeat split; reflexivity.
+Qed.
+
+Lemma Jst0 lv k0 : Jst lv k0 st0.
+Proof. split; [left; split; reflexivity|]. cbn. split; [intros _; now left|intros N; congruence]. Qed.
+
+Lemma T_insert_loop {R} t fuel : forall s k0 leaf slots ni (k : TL -> bool -> prog R) kf lv,
+  (t < 64)%nat -> tlk t lv s -> 0 <= k0 < 8 -> vleaf lv = Some leaf -> lkey leaf = k0 ->
+  match ni with Some n => ni_ok lv n | None => True end ->
+  (forall s' b lv1, tlk t lv1 s' -> SAFEm t (k s' b) lv1) ->
+  (forall s' lv1, tlk t lv1 s' -> SAFEm t (kf s') lv1) ->
+  SAFEm t (insert_loop fuel s k0 leaf slots ni k kf) lv.
+Proof.
+  induction fuel as [|f IH]; intros s k0 leaf slots ni k kf lv Hlt Ht Hk0 Hleaf Hlk Hni Hk Hf; cbn [insert_loop]; [now apply Hf|].
+  apply T_srch; [apply Jst0| |intros lv1 V; apply Hf; eapply tlk_vle; eauto].
+  intros r found lv1 V HRS. assert (Ht1 : tlk t lv1 s) by (eapply tlk_vle; eauto).
+  assert (Hleaf1 : vleaf lv1 = Some leaf) by (destruct V as (_ & _ & E & _); congruence).
+  assert (Hni1 : match ni with Some n => ni_ok lv1 n | None => True end).
+  { destruct ni as [n|]; [|exact Logic.I]. destruct Hni as (fn & key & l & r' & E & F). exists fn, key, l, r'. split; [|exact F].
+    destruct V as (_ & _ & _ & E' & _). congruence. }
+  destruct found; [now apply Hk|]. destruct (clean r); [|apply IH; auto].
+  assert (Hatt : forall n s' lv2, tlk t lv2 s' -> RS lv2 k0 r false -> vleaf lv2 = Some leaf -> ni_ok lv2 n ->
+            SAFEm t (try_insert s' k0 leaf n r (fun s'' ok =>
+              if ok then Act a_faa_cnt (fun _ => k s'' true) else insert_loop f s'' k0 leaf slots (Some n) k kf)) lv2).
+  { intros n s' lv2 Hs' HRS2 Hl2 Hn2. apply (T_try_insert t); [exact Hs'|exact Hk0|exact HRS2|exact Hl2|exact Hlk|exact Hn2| |].
+    - intros s'' lv3 Hs'' Hl3 Hn3. apply IH; auto.
+    - intros s'' lv3 Hs''. snx. now apply Hk. }
+  destruct ni as [n|]; [now apply Hatt|].
+  unfold new_obj. destruct Ht1 as [T1 T2]. rewrite T1.
+  apply Sm_alloc_ni; [exact Hlt|exact T2|]. intros _ key l r'. snx.
+  set (lv2 := mkLV (vpa lv1) (vfl lv1) (vleaf lv1) (Some (mk_id t (ser s) 1 0, 1, key, l, r')) (S (ser s))).
+  apply Hatt.
+  - split; [reflexivity|]. cbn. lia.
+  - destruct HRS as (A & B & C & D & E & F). repeat split; auto.
+  - exact Hleaf1.
+  - exists 1, key, l, r'. split; [reflexivity|now left].
+Qed.
+
+Definition between {R} t (cont : TL -> prog R) : Prop := forall s' lv1, tlk t lv1 s' -> SAFEm t (cont s') lv1.
+
+Lemma Sm_free_all' {R} t slots : forall s (k : TL -> prog R) lv,
+  tlk t lv s -> (forall s' lv1, vle lv lv1 -> tlk t lv1 s' -> SAFEm t (k s') lv1) -> SAFEm t (g_free_all s slots k) lv.
+Proof.
+  intros s k lv Ht H. apply Sm_free_all; [exact Ht|]. intros s' Hs'. apply H; [apply vle_refl|exact Hs'].
+Qed.
+
+Lemma T_op_insert {R} t fuel s k (cont : TL -> prog R) lv :
+  (t < 64)%nat -> (k < 8)%nat -> tlk t lv s -> between t cont -> SAFEm t (op_insert fuel s k cont) lv.
+Proof.
+  intros Hlt Hk [T1 T2] Hc. unfold op_insert, new_obj. rewrite T1.
+  apply Sm_alloc_leaf; auto. intros _. set (leaf := mk_id t (ser s) 0 k).
+  set (lv0 := mkLV (vpa lv) (vfl lv) (Some leaf) (vni lv) (S (ser s))).
+  assert (Ht0 : tlk t lv0 (mkTL t (fl s) (S (ser s)))) by (split; [reflexivity|cbn; lia]).
+  destruct (alloc1 _) as [gi s1] eqn:Ea1. pose proof (tlk_alloc1 _ _ _ _ _ Ea1 Ht0) as Hs1.
+  apply Sm_assign. destruct (allocn 6 s1) as [slots s2] eqn:Ea2. pose proof (tlk_allocn _ _ _ _ _ _ Ea2 Hs1) as Hs2.
+  apply (T_insert_loop t); [exact Hlt|exact Hs2|lia|reflexivity|apply mk_id_lkey; exact Hk|exact Logic.I| |].
+  - intros s' b lv1 Hs'. apply Sm_free_all; [exact Hs'|]. intros s'' Hs''. apply Sm_clear. unfold finish. apply Sm_emit. now apply Hc.
+  - intros s' lv1 Hs'. apply Sm_free_all; [exact Hs'|]. intros s'' Hs''. apply Sm_clear. unfold out_of_fuel. apply Sm_emit. now apply Hc.
+Qed.
+
+Lemma T_op_contains {R} t fuel s k (cont : TL -> prog R) lv :
+  tlk t lv s -> between t cont -> SAFEm t (op_contains fuel s k cont) lv.
+Proof.
+  intros Ht Hc. unfold op_contains. destruct (allocn 6 s) as [slots s1] eqn:Ea. pose proof (tlk_allocn _ _ _ _ _ _ Ea Ht) as Hs1.
+  apply T_srch; [apply Jst0| |].
+  - intros r found lv1 V _. apply Sm_free_all; [eapply tlk_vle; eauto|]. intros s'' Hs''. unfold finish. apply Sm_emit. now apply Hc.
+  - intros lv1 V. apply Sm_free_all; [eapply tlk_vle; eauto|]. intros s'' Hs''. unfold out_of_fuel. apply Sm_emit. now apply Hc.
+Qed.
+
+(** programs of insert / contains *)
+Definition op_ok (o : op) : Prop := match o with OIns k => (k < 8)%nat | OContains _ => True | OErase _ => False end.
+
+Lemma T_run_ops t fuel : (t < 64)%nat -> forall os, Forall op_ok os -> between t (fun s => run_ops fuel s os).
+Proof.
+  intros Hlt. induction os as [|o r IH]; intros Hok s lv Ht; cbn [run_ops]; [apply Sm_ret|].
+  inversion Hok as [|? ? Ho Hr]; subst. specialize (IH Hr). unfold run_op. destruct o as [k|k|k]; cbn [op_ok] in Ho; try contradiction; apply Sm_emit.
+  - now apply T_op_insert.
+  - now apply T_op_contains.
+Qed.
+
+Lemma T_thread t fuel os lv : (t < 64)%nat -> Forall op_ok os -> vser lv = 0%nat -> SAFE t (thread_prog fuel t os) lv.
+Proof.
+  intros Hlt Hok Hser. assert (H : SAFEm t (thread_prog fuel t os) lv); [|apply H, vle_refl].
+  unfold thread_prog. snx. apply (T_run_ops t fuel Hlt os Hok). split; [reflexivity|rewrite Hser; cbn; lia].
+Qed.
+
+(** ** the initial state: a decidable check (evaluated for the pre-filled trees of the correspondence runs) *)
+Fixpoint nodes_of (fuel : nat) (g : G) (n : ptr) : list ptr :=
+  match fuel with
+  | O => [n]
+  | S f => if is_internal_f (flags g n) then n :: nodes_of f g (lft g n) ++ nodes_of f g (rgt g n) else [n]
+  end.
+Definition memb (x : ptr) (l : list ptr) : bool := existsb (Nat.eqb x) l.
+Definition init_check (g : G) : bool :=
+  let L := nodes_of 24 g root in
+  bst_ok 24 g root (-1) 1002 && (flags g root =? 5) && (node_key g (lft g root) =? 1000) && (flags g null =? 0) &&
+  forallb (fun n => negb (is_internal_f (flags g n)) ||
+                    (memb (lft g n) L && memb (rgt g n) L && negb (Nat.eqb (lft g n) root) && negb (Nat.eqb (rgt g n) root))) L &&
+  forallb (fun n => Nat.ltb n 4 || (Nat.eqb (owner_of n) 63 && Nat.ltb (ser_of n) 64)) L.
+
+Lemma bst_ok_T fuel : forall g n lo hi, bst_ok fuel g n lo hi = true -> T g n lo hi.
+Proof.
+  induction fuel as [|f IH]; intros g n lo hi H; cbn [bst_ok] in H; [discriminate|].
+  destruct (Nat.eqb n null); [discriminate|]. destruct (is_internal_f (flags g n)) eqn:Ei.
+  - apply andb_true_iff in H. destruct H as [H H4]. apply andb_true_iff in H. destruct H as [H H3].
+    apply andb_true_iff in H. destruct H as [H1 H2]. apply Z.leb_le in H1. apply Z.ltb_lt in H2.
+    apply T_int; [exact Ei|lia|now apply IH|now apply IH].
+  - apply andb_true_iff in H. destruct H as [H1 H2]. apply Z.leb_le in H1. apply Z.ltb_lt in H2.
+    apply T_leaf; [unfold internal; rewrite Ei; discriminate|lia].
+Qed.
+
+Lemma memb_In x l : memb x l = true <-> In x l.
+Proof.
+  unfold memb. rewrite existsb_exists. split; [intros (y & Hy & E); apply Nat.eqb_eq in E; now subst|intros H; exists x; split; [exact H|apply Nat.eqb_refl]].
+Qed.
+
+Lemma nodes_of_head fuel g n : In n (nodes_of fuel g n).
+Proof. destruct fuel; cbn [nodes_of]; [now left|]. destruct (is_internal_f (flags g n)); now left. Qed.
+
+Definition aux0 (g : G) : aux :=
+  mkAux (fun x => memb x (nodes_of 24 g root)) (fun u => mkLV [] [] None None (if Nat.eqb u 63 then 64%nat else 0%nat)).
+
+Lemma init_IS g : init_check g = true -> IS g (aux0 g).
+Proof.
+  unfold init_check. intros H. repeat (apply andb_true_iff in H; destruct H as [H ?]).
+  rename H0 into Hown, H1 into Hcl, H2 into Hnull, H3 into HL, H4 into Hroot.
+  rewrite forallb_forall in Hown, Hcl. apply Z.eqb_eq in Hnull, HL, Hroot.
+  constructor; cbn [apub aux0].
+  - now apply (bst_ok_T 24).
+  - exact Hroot.
+  - exact HL.
+  - intros n d Hn Hi. apply memb_In in Hn. specialize (Hcl n Hn). unfold internal in Hi. rewrite Hi in Hcl. cbn [negb orb] in Hcl.
+    apply andb_true_iff in Hcl; destruct Hcl as [Hcl NR]. apply andb_true_iff in Hcl; destruct Hcl as [Hcl NL]. destruct d; cbn [child]; intros E.
+    + rewrite E in NR. cbn in NR. discriminate.
+    + rewrite E in NL. cbn in NL. discriminate.
+  - intros n d Hn Hi. apply memb_In in Hn. specialize (Hcl n Hn). unfold internal in Hi. rewrite Hi in Hcl. cbn [negb orb] in Hcl.
+    apply andb_true_iff in Hcl; destruct Hcl as [Hcl NR]. apply andb_true_iff in Hcl; destruct Hcl as [Hcl NL].
+    apply andb_true_iff in Hcl; destruct Hcl as [ML MR]. destruct d; cbn [child]; assumption.
+  - apply memb_In. apply nodes_of_head.
+  - intros t. unfold view. cbn [aviews aux0]. split; [constructor|]. split; [constructor|]. split; [exact Logic.I|]. split; [exact Logic.I|].
+    intros n Hn1 Hn2 Hn3. cbn [vser vleaf vni] in *. split; [|split; [discriminate|intros; discriminate]].
+    destruct (memb n (nodes_of 24 g root)) eqn:E; [|reflexivity]. exfalso. apply memb_In in E. specialize (Hown n E).
+    apply orb_true_iff in Hown. destruct Hown as [X|X]; [apply Nat.ltb_lt in X; lia|].
+    apply andb_true_iff in X. destruct X as [X1 X2]. apply Nat.eqb_eq in X1. apply Nat.ltb_lt in X2.
+    rewrite X1 in Hn2. subst t. cbn [Nat.eqb] in Hn3. lia.
+  - exact Hnull.
+Qed.
+
+Lemma nth_error_combine {A B} : forall (l1 : list A) (l2 : list B) n a b,
+  nth_error (combine l1 l2) n = Some (a, b) -> nth_error l1 n = Some a /\ nth_error l2 n = Some b.
+Proof.
+  induction l1 as [|x l1 IH]; intros l2 n a b H; [destruct n; discriminate|].
+  destruct l2 as [|y l2]; [destruct n; discriminate|]. destruct n as [|n]; cbn in *; [inversion H; auto|now apply IH].
+Qed.
+Lemma nth_error_seq0 n t t' : nth_error (seq 0 n) t = Some t' -> t' = t /\ (t < n)%nat.
+Proof.
+  intros H. assert (Hl : (t < n)%nat) by (rewrite <- (seq_length n 0); apply nth_error_Some; congruence).
+  split; [|exact Hl]. apply (nth_error_nth _ _ 0%nat) in H. rewrite seq_nth in H by exact Hl. lia.
+Qed.
+
+Lemma init_cfg_ok fuel keys ths :
+  init_check (init keys) = true -> Forall (Forall op_ok) ths -> (List.length ths <= 63)%nat ->
+  @Conc.cfg_ok G V ev aux lview view Inv (init_cfg fuel keys ths).
+Proof.
+  intros Hi Ho Hlen. exists (aux0 (init keys)). split; [now apply init_IS|].
+  intros t p Hp. unfold init_cfg in Hp. cbn [Conc.threads] in Hp. rewrite nth_error_map in Hp.
+  destruct (nth_error (combine (seq 0 (List.length ths)) ths) t) as [[t' os]|] eqn:E; [|discriminate].
+  injection Hp as <-. cbn [fst snd]. apply nth_error_combine in E. destruct E as [E1 E2].
+  apply nth_error_seq0 in E1. destruct E1 as [-> Hlt].
+  apply T_thread; [lia| |].
+  - apply nth_error_In in E2. rewrite Forall_forall in Ho. now apply Ho.
+  - unfold view. cbn [aviews aux0 vser]. destruct (Nat.eqb_spec t 63); [lia|reflexivity].
+Qed.
+
+(** * the theorem: for EVERY schedule of programs of insert / contains over a pre-filled tree, at every reachable state the
+    tree reachable from m_Root is a leaf-oriented binary search tree (keys of the left subtree < key of the node <= keys
+    of the right subtree, Inf1 < Inf2 above all keys) *)
+Theorem ellen_bst_invariant fuel keys ths c :
+  init_check (init keys) = true -> Forall (Forall op_ok) ths -> (List.length ths <= 63)%nat ->
+  Conc.reach (init_cfg fuel keys ths) c -> T (Conc.shared c) root (-1) 1002.
+Proof.
+  intros Hi Ho Hlen Hr. destruct (Conc.reach_Inv (init_cfg_ok fuel keys ths Hi Ho Hlen) Hr) as (a & Hs). apply (s_T _ _ Hs).
+Qed.
+
+(** every pre-filled tree of the correspondence runs passes the initial check *)
+Lemma init_check_prefills : forallb (fun m => init_check (init (prefill_keys [Z.of_nat m]))) (seq 0 16) = true.
+Proof. vm_compute. reflexivity. Qed.
+
+(** the search of the model for a key ends in the leaf with that key iff the key is among the leaves of the [T]-tree:
+    stated only for the monitor's executable check *)
+Lemma tree_ok_T g : tree_ok g = true -> T g root (-1) 1002.
+Proof. apply (bst_ok_T 24). Qed.
